@@ -122,6 +122,7 @@ type FuncContract struct {
 	Trusted  string
 	NoOverflow string
 	Wraparound string
+	Fuel     int // unfolding depth for recursive spec functions in this block's obligations (default 2; hypotheses get one less)
 	Callbacks []*CallbackSpec // what is logged when a function-typed parameter is called
 	Effects  []*Clause // ghost effect-log appends: Label = log name, Expr = logged string value
 	File     string
@@ -174,7 +175,7 @@ type ContractFile struct {
 var clauseKeywords = map[string]bool{
 	"requires": true, "ensures": true, "modifies": true, "pure": true, "observer": true, "loop": true,
 	"inline": true, "uses": true, "induct": true, "decreases": true, "witness": true, "trusted": true,
-	"trigger": true, "instance": true, "nooverflow": true, "assert": true, "wraparound": true, "effect": true, "callback": true,
+	"trigger": true, "instance": true, "nooverflow": true, "assert": true, "wraparound": true, "effect": true, "callback": true, "fuel": true,
 }
 
 // ScanContractFile extracts the //@ blocks of a Go source file.
@@ -504,6 +505,12 @@ func (cf *ContractFile) addClause(fc *FuncContract, text string, line int) error
 			return bad("effect needs a log name and an expression")
 		}
 		fc.Effects = append(fc.Effects, &Clause{Kind: "effect", Label: rest[:k], Loop: -1, Expr: strings.TrimSpace(rest[k:]), Line: line})
+	case "fuel":
+		n, err := strconv.Atoi(strings.TrimSpace(rest))
+		if err != nil || n < 1 || n > 6 {
+			return bad("fuel must be 1..6")
+		}
+		fc.Fuel = n
 	case "wraparound":
 		if rest == "" {
 			rest = "signed arithmetic wraps"
